@@ -513,8 +513,11 @@ def render_sig(sig, lead=()):
 
 
 class PipeGen(FileGen):
-    def __init__(self, rng, target, hostile=0.02):
+    def __init__(self, rng, target, hostile=0.02, class_targets=False):
         super().__init__(rng, target, hostile=hostile)
+        # class_targets: calls to a class unit are (also) written as instances STORED in a name / attribute / item
+        # (`x = K(..)`, `p.inst = K(..)`, `p.rows[0] = K(..)`, annotated / augmented / walrus forms): visit_ClassAssign
+        self.class_targets = class_targets
         self.shared_names = rng.random() < 0.3
         self.clean = rng.random() < 0.25       # bare arguments, a forest: the fragment of the tree theorems
         self.units = []
@@ -601,6 +604,14 @@ class PipeGen(FileGen):
         c = self.call_to(caller_params, u)
         if in_lambda:
             return c
+        if self.class_targets and u["kind"] == "init" and r.random() < 0.7:
+            h = caller_params[0] if caller_params else "glob"
+            i = u["i"]
+            if self.clean:
+                return [r.choice([f"{self.fresh('inst')} = {c}", f"{self.fresh('inst')}: object = {c}", f"({self.fresh('inst')} := {c})"])]
+            return [r.choice([f"{self.fresh('inst')} = {c}", f"{h}.inst{i} = {c}", f"{h}.rows{i}[0] = {c}", f"{h}[0] = {c}",
+                              f"{h}.a{i}.inst{i} = {c}", f"{h}[0].inst{i} = {c}", f"{h}.inst{i}: object = {c}", f"{h}.inst{i} += {c}",
+                              f"({self.fresh('inst')} := {c})", f"{h}.inst{i} = {h}.other{i} = {c}" if r.random() < 0.05 else f"{h}.inst{i} = {c}"])]
         form = r.choice(["expr", "expr", "assign", "return", "attr", "nested"]) if not self.clean else r.choice(["expr", "assign"])
         if form == "expr":
             return [c]
@@ -736,10 +747,10 @@ class PipeGen(FileGen):
         return "\n".join(lines) + "\n"
 
 
-def gen_pipeline_module(rng: random.Random, hostile=0.02):
+def gen_pipeline_module(rng: random.Random, hostile=0.02, class_targets=False):
     """(source, target path relative to the project root) for the whole-pipeline stage."""
     target = rng.choice(TARGETS)
-    return PipeGen(rng, target, hostile=hostile).pipeline_module(), target
+    return PipeGen(rng, target, hostile=hostile, class_targets=class_targets).pipeline_module(), target
 
 
 PIPELINE_CURATED = [
@@ -765,4 +776,14 @@ PIPELINE_CURATED = [
     ("target.py", "def f(a):\n    return a.x\ndef f(b, c):\n    return b.y + c.z\ndef use(p, q):\n    f(p)\n    f(p, q)\n"),
     ("target.py", "def use(o):\n    return early(o)\nclass early:\n    def __init__(self, v, w=0):\n        self.f = v.a\n    def __init__(self, v):\n        self.g = v.b\n"),
     ("target.py", "from rattr.analyser.annotations import rattr_results\n@rattr_results(gets={'a.x'}, calls=[('leaf()', (['a'], {}))])\ndef decl(a):\n    pass\ndef leaf(l):\n    l.deep = 1\ndef use(u):\n    decl(u)\n"),
+]
+
+
+# instances stored in names / attributes / items (run by the stages that pass class_targets=True)
+PIPELINE_CURATED_INSTANCES = [
+    ("target.py", "class Point:\n    def __init__(self, src):\n        self.x = src.value\n        self.y = src.other\ndef make_local(a):\n    p = Point(a)\n    return p\n"
+                  "def make_attr(holder, a):\n    holder.pt = Point(a)\n    return holder\ndef make_item(table, a):\n    table.rows[0] = Point(a)\n"),
+    ("target.py", "class K:\n    def __init__(self, v, w=0):\n        self.f = v.a\n        del self.g\n        w.h\ndef use(o, p):\n    o.k: K = K(p)\n    o.j += K(p, w=o)\n    (z := K(o.q))\n    o.a.b[0].c = K(v=p[0])\n"),
+    ("target.py", "class K:\n    def __init__(self, v):\n        self.f = v.a\ndef inner(h, q):\n    h.slot = K(q)\ndef outer(hh, qq):\n    inner(hh, qq)\n"),
+    ("target.py", "class K:\n    def __init__(self, v):\n        self.f = v.a\ndef two(h, q):\n    h.one = h.two = K(q)\n"),
 ]
